@@ -347,7 +347,8 @@ class Spec:
         refs = sorted((k, type(v).__name__, getattr(v, "size", None), getattr(v, "rect", None)) for k, v in m._merge_cells[tid]._references.items() if v) if tid in m._merge_cells else None
         t = st.doc.sheets[0].tables[0]
         classes = [[type(c).__name__ for c in row] for row in t._data]
-        return repr((st.grid, sorted(st.rects), st.mode, st.reopened, st.saved, refs, classes))
+        hidden = explore.generic_fingerprint(t, ("_data", "_model", "_cache"))
+        return repr((st.grid, sorted(st.rects), st.mode, st.reopened, st.saved, refs, classes, hidden))
 
 
 # The merge map of the library is not shifted by structural edits (known finding C12-merge-map-not-shifted);
